@@ -373,11 +373,74 @@ def check_defaults_untouched(ctx: Ctx):
         ctx.decide("R19.2", f, f.node, f"{ech.qual}:partial-coverage", "a handler covering only some metrics loads with exactly those metrics", isinstance(got, dict) and len(got) == 1, {"metrics": len(got) if isinstance(got, dict) else repr(got)})
 
 
+def check_yaml_dialect(ctx: Ctx):
+    """R19.6: the YAML object that dumps a configuration and the one that loads it are set up
+    alike where that changes how scalars resolve: same `typ`, same `version` (YAML 1.1 reads
+    yes/no/on/off/y/n as booleans, 1.2 - the dumper's default - writes them as plain strings)."""
+    prog = ctx.prog
+    sides = {}
+    for role, ref in (("load", "utils.config:_load_yaml"), ("dump", "utils.config:_save_yaml")):
+        f = prog.func(ref)
+        typ = version = "default"
+        var = None
+        for n in walk_no_nested(f.node):
+            if isinstance(n, ast.Assign) and isinstance(n.value, ast.Call) and (dotted(n.value.func) or "").split(".")[-1] == "YAML" and len(n.targets) == 1 and isinstance(n.targets[0], ast.Name):
+                var = n.targets[0].id
+                for k in n.value.keywords:
+                    if k.arg == "typ":
+                        typ = norm(k.value)
+                if n.value.args:
+                    typ = norm(n.value.args[0])
+        if var is None:
+            ctx.undecided("R19.6", f, f.node, f"{f.qual}:yaml-object", "no YAML(...) construction found")
+            return
+        for n in walk_no_nested(f.node):
+            if isinstance(n, ast.Assign) and len(n.targets) == 1 and isinstance(n.targets[0], ast.Attribute) and isinstance(n.targets[0].value, ast.Name) and n.targets[0].value.id == var and n.targets[0].attr == "version":
+                version = norm(n.value)
+        sides[role] = (f, typ, version)
+    (fl, tl, vl), (fd, td, vd) = sides["load"], sides["dump"]
+    ctx.decide("R19.6", fl, fl.node, "yaml:dialect-agreement", "loader and dumper use the same YAML typ and version (scalars resolve alike on both sides)", tl == td and vl == vd, {"load": {"typ": tl, "version": vl}, "dump": {"typ": td, "version": vd}})
+
+
+def check_config_names(ctx: Ctx):
+    """R19.7: saving by name and loading by name meet at the same file, and different names never
+    share one: the file name is the given name, with '.yaml' appended unless it already ends
+    with it (nothing of the name is replaced).  config_dir_by_name is run on concrete names."""
+    from .fsrun import FS, FSInterp, PathV
+
+    prog = ctx.prog
+    f = prog.func("utils.filepath:config_dir_by_name")
+    p0 = f.call_params[0].name
+    names = ["cfg", "cfg.yaml", "x.iou", "x.dsc", "v1.2", "v1.3", "run.final.yaml", "a.b.c"]
+    got = {}
+    for nm in names:
+        it = FSInterp(prog, f, {p0: nm}, fs=FS({}))
+        try:
+            out = it.run()
+        except Undecided as e:
+            ctx.undecided("R19.7", f, f.node, f"{f.qual}:name={nm}", f"not evaluable: {e}")
+            return
+        if out.kind != "return" or out.decisions or not isinstance(out.value, tuple) or len(out.value) != 2:
+            ctx.undecided("R19.7", f, out.node, f"{f.qual}:name={nm}", f"not evaluable: {out.kind} {out.exc}")
+            return
+        v = out.value[1]
+        got[nm] = v.s if isinstance(v, PathV) else v
+    want = {nm: nm if nm.endswith(".yaml") else nm + ".yaml" for nm in names}
+    bad = {nm: got[nm] for nm in names if got[nm] != want[nm]}
+    coll = [(a, b) for i, a in enumerate(names) for b in names[i + 1 :] if got[a] == got[b] and want[a] != want[b]]
+    ctx.decide("R19.7", f, f.node, f"{f.qual}:file-names", "the file of a named configuration is <name> with '.yaml' appended if missing; distinct names give distinct files", not bad and not coll, {"unexpected": bad, "collisions": coll[:3]})
+
+
 def check(ctx: Ctx):
     check_roundtrip(ctx)
     check_enums(ctx)
     check_shipped(ctx)
     check_defaults_untouched(ctx)
+    for fn, rule in ((check_yaml_dialect, "R19.6"), (check_config_names, "R19.7")):
+        try:
+            fn(ctx)
+        except (Undecided, AnchorMissing) as e:
+            ctx.undecided(rule, None, None, f"{rule}:{fn.__name__}", f"{type(e).__name__}: {e}")
     # R19.5b: serialised state is stable through use (a saved configuration of a used object equals
     # the one it was loaded from): configuration objects write their attributes only in __init__
     from . import c15
